@@ -1053,7 +1053,7 @@ structure StepEff (c : Cfg) (s : St) (t : Tid) (s' : St) (L L' : List Nat) : Pro
   keys : ∀ a, Alloc (mem! s) a → s'.so a = s.so a ∧ s'.uk a = s.uk a ∧ s'.val a = s.val a
   tabmono : ∀ b d, s.table b = some d → s'.table b = some d
   grow : s'.cnt2 ≠ s.cnt2 → L' = L ∧ s'.next = s.next ∧ s'.mark = s.mark ∧ s'.table = s.table ∧
-    s'.cnt2 = s.cnt2 + 1 ∧ lpRet c s.so s.uk s.val (s.pc t) = some [1]
+    s'.cnt2 = s.cnt2 + 1 ∧ postRet s.val (s.pc t) = some [1] ∧ postRet s'.val (s'.pc t) = some [1]
   publish : ∀ b, s'.table b ≠ s.table b → L' = L ∧ s'.next = s.next ∧ s'.mark = s.mark ∧ s'.cnt2 = s.cnt2 ∧
     lpRet c s.so s.uk s.val (s.pc t) = none ∧ lpRet c s'.so s'.uk s'.val (s'.pc t) = none
 
